@@ -9,14 +9,20 @@
 #![allow(non_snake_case, clippy::missing_safety_doc)]
 use std::sync::atomic::{AtomicU64, Ordering};
 pub static ATOMIC_CALLS: AtomicU64 = AtomicU64::new(0);
+/// called after an atomic load (and, through `after`, after a relaxed store): a scheduling point of its own
+/// kind, so that a reader can be descheduled between two loads of a lock-free protocol
 #[inline(always)]
-fn hook(_rmw: bool) {}
+fn hook(_rmw: bool) {
+    crate::sim::hook_atomic_load();
+}
 /// called after the operation took effect (the thread may be descheduled right after a lock release
 /// or right after a lock acquisition)
 #[inline(always)]
 fn after(write: bool, mo: i32) {
     if write && mo != 0 {
         crate::sim::hook_atomic();
+    } else if write {
+        crate::sim::hook_atomic_load();
     }
 }
 fn ord(mo: i32) -> Ordering { match mo { 0 => Ordering::Relaxed, 1 | 2 => Ordering::Acquire, 3 => Ordering::Release, 4 => Ordering::AcqRel, _ => Ordering::SeqCst } }
@@ -39,7 +45,7 @@ noop_access!(__tsan_read1, __tsan_read2, __tsan_read4, __tsan_read8, __tsan_read
 #[no_mangle] pub extern "C" fn __tsan_atomic_thread_fence(mo: i32) { std::sync::atomic::fence(match ord(mo) { Ordering::Relaxed => Ordering::Acquire, o => o }); }
 #[no_mangle] pub extern "C" fn __tsan_atomic_signal_fence(mo: i32) { std::sync::atomic::compiler_fence(match ord(mo) { Ordering::Relaxed => Ordering::Acquire, o => o }); }
 macro_rules! atomics { ($t:ty, $at:ty, $load:ident, $store:ident, $xchg:ident, $add:ident, $sub:ident, $and:ident, $or:ident, $xor:ident, $nand:ident, $cas_s:ident, $cas_w:ident, $cas_v:ident) => {
-    #[no_mangle] pub unsafe extern "C" fn $load(a: *const $t, mo: i32) -> $t { hook(false); (*(a as *const $at)).load(ord_load(mo)) }
+    #[no_mangle] pub unsafe extern "C" fn $load(a: *const $t, mo: i32) -> $t { let r = (*(a as *const $at)).load(ord_load(mo)); hook(false); r }
     #[no_mangle] pub unsafe extern "C" fn $store(a: *mut $t, v: $t, mo: i32) { (*(a as *const $at)).store(v, ord_store(mo)); after(true, mo) }
     #[no_mangle] pub unsafe extern "C" fn $xchg(a: *mut $t, v: $t, mo: i32) -> $t { let r = (*(a as *const $at)).swap(v, ord(mo)); after(true, mo); r }
     #[no_mangle] pub unsafe extern "C" fn $add(a: *mut $t, v: $t, mo: i32) -> $t { let r = (*(a as *const $at)).fetch_add(v, ord(mo)); after(true, mo); r }
